@@ -307,6 +307,8 @@ def enumeration_unit(check, stats: Stats, *, cases, label="enum", known_ids=(),
         stats.exhaustive_units += 1
     stats.units.append(dict(unit=label, kind="enumeration", cases=n,
                             exhaustive=bool(exhaustive), wall_s=round(time.time() - t0, 2)))
+    if len(stats.violations) >= stop_after:
+        stats.units[-1]["cut_short"] = True
 
 
 def _run_unit(args):
@@ -474,7 +476,10 @@ def main(check_name: str, argv) -> int:
         coverage["exhaustive_units"] = total.exhaustive_units
     if getattr(check, "EXHAUSTIVE", None):
         ex = check.EXHAUSTIVE(tier) if callable(check.EXHAUSTIVE) else check.EXHAUSTIVE
-        if ex and total.exhaustive_units and not total.violations:
+        cut = [u["unit"] for u in total.units if u.get("cut_short")]
+        if cut:
+            coverage["enumerations_cut_short"] = cut
+        if ex and total.exhaustive_units and not total.violations and not cut:
             coverage["exhaustive"] = True
             coverage["exhaustive_scope"] = ex
     evidence = dict(
